@@ -5,7 +5,8 @@ import WfModel.GenSseClient
 
 Executable model of
 
-* the server's rendering of an event list from a cursor as an SSE character stream, exactly as
+* the server's choice of what to stream (`_resolve_event_stream`: 204 test on all remaining events,
+  `include_internal` filter on the subscription) and its rendering as an SSE character stream, exactly as
   `_WorkflowAPI._stream_events.format_stream` frames it
   (`f"id: {sequence}\ndata: {payload}\n\n"`, heartbeat comments `": heartbeat\n\n"` in between,
   HTTP 204 when nothing is left and the run is complete; the literal pieces come from
@@ -24,7 +25,7 @@ Executable model of
   `ConnectionError` when `attempts > max_reconnect_attempts`, `TimeoutError` for timeouts,
   validation errors and HTTP status errors end the stream.
 
-Not modelled: the `"now"` cursor, cancellation (`aclose`), `include_internal` filtering.
+Not modelled: the `"now"` cursor, cancellation (`aclose`).
 JSON validation (`EventEnvelopeWithMetadata.model_validate_json`) is the parameter `valid`.
 -/
 
@@ -67,10 +68,17 @@ def digitsTail : Bool → List Char → Bool
     else if c == '_' && !us then digitsTail true cs
     else false
 
-/-- Python `int(s)`: surrounding whitespace, an optional sign, decimal digits (of any script)
-with single underscores between them. -/
+/-- what `int()` skips around the number: not quite `str.isspace` (U+001C..U+001F stay) -/
+def isIntSpace (c : Char) : Bool := pyIntSpace.contains c.toNat
+
+def stripIntL (s : List Char) : List Char := s.dropWhile isIntSpace
+
+def stripInt (s : List Char) : List Char := (stripIntL (stripIntL s).reverse).reverse
+
+/-- Python `int(s)`: surrounding whitespace (its own notion), an optional sign, decimal digits (of
+any script) with single underscores between them. -/
 def pyInt? (s : List Char) : Option Int :=
-  let t := strip s
+  let t := stripInt s
   let neg := t.head? == some '-'
   let body := if t.head? == some '-' || t.head? == some '+' then t.tail else t
   match body with
@@ -87,12 +95,17 @@ structure Ev where
   seq : Nat
   payload : List Char
   terminal : Bool
+  /-- `InternalDispatchEvent` is the envelope's type or among its `types` -/
+  internal : Bool := false
   deriving DecidableEq, Repr
 
 structure Server where
   log : List Ev
   /-- the handler's persisted status is terminal -/
   statusDone : Bool := false
+  /-- the `include_internal` query flag of the stream's requests (the reader sends the same one
+  on every connection) -/
+  inclInternal : Bool := true
   deriving Repr
 
 /-- `subscribe_events`: stop right after the first terminal event -/
@@ -122,13 +135,18 @@ inductive Resp where
   | stream (body : List Char) (closes : Bool)
   deriving Repr, DecidableEq
 
-/-- `_stream_events` + `_resolve_event_stream` for a numeric cursor -/
+/-- `event_gen` of `_resolve_event_stream`: `if not include_internal and "InternalDispatchEvent" in types: continue` -/
+def Server.shows (s : Server) (e : Ev) : Bool := s.inclInternal || !e.internal
+
+/-- `_stream_events` + `_resolve_event_stream` for a numeric cursor: the 204 test looks at all the
+remaining events, the subscription ends with the first terminal one, internal events are left
+out of the frames unless asked for -/
 def Server.serve (s : Server) (c : Int) (hb : List Nat) : Resp :=
   let later := s.later c
   if later.isEmpty && s.complete then .status 204
   else
     let evs := takeThrough (·.terminal) later
-    .stream (render evs hb) (evs.any (·.terminal))
+    .stream (render (evs.filter s.shows) hb) (evs.any (·.terminal))
 
 /-! ## transport -/
 
@@ -270,10 +288,55 @@ def run (P : Params) (srv : Server) : CState → List Conn → CState × Res
     | (st', some r) => (st', r)
     | (st', none) => run P srv st' cs
 
+/-! ## a log that grows while the client is streaming -/
+
+/-- The scripted connections, each paired with the run's log (and handler status) as the server
+knows it by the time that connection ends: events appended between two connections, or while a
+connection is open, show up in the later snapshot.  `run` is the special case of one constant
+snapshot. -/
+def runLive (P : Params) : CState → List (Server × Conn) → CState × Res
+  | st, [] => (st, .more)
+  | st, (srv, c) :: cs =>
+    match connect P st (respFor srv st c) c.fault with
+    | (st', some r) => (st', r)
+    | (st', none) => runLive P st' cs
+
+/-! ## the client's own line iterator, chunk by chunk -/
+
+/-- `_iter_sse_lines`, one pass of `async for text in response.aiter_text()`:
+`buffer += text; *lines, buffer = buffer.split(sep)` -- the complete lines are yielded, the
+unterminated rest is kept -/
+def feedChunk (brk : Char → Bool) (buffer text : List Char) : List (List Char) × List Char :=
+  splitLines brk (buffer ++ text)
+
+/-- all the lines yielded while the chunks arrive, and the buffer that is left -/
+def iterLines (brk : Char → Bool) : List Char → List (List Char) → List (List Char) × List Char
+  | buffer, [] => ([], buffer)
+  | buffer, text :: rest =>
+    let r := feedChunk brk buffer text
+    let r' := iterLines brk r.2 rest
+    (r.1 ++ r'.1, r'.2)
+
+/-- what the frame parser is fed from one connection whose decoded text arrived in `chunks`:
+the trailing `if buffer: yield buffer` runs only when `aiter_text` ends without an exception -/
+def chunkedLines (brk : Char → Bool) (eof : Bool) (chunks : List (List Char)) : List (List Char) :=
+  let r := iterLines brk [] chunks
+  if eof && !r.2.isEmpty then r.1 ++ [r.2] else r.1
+
+/-! ## the two ends of the cursor -/
+
+/-- Python `str(n)` of an `int`: what the reader sends as `after_sequence` -/
+def pyStr (n : Int) : List Char := if n < 0 then '-' :: decimal n.natAbs else decimal n.natAbs
+
+/-- `EventStream._iterate`: `self._last_sequence = item.sequence` right before `yield item.event`;
+`last_sequence` as the consumer reads it once `k` items have been yielded -/
+def streamLast (init : Int) (queued : List (Int × List Char)) (k : Nat) : Int :=
+  ((queued.take k).getLast?.map (·.1)).getD init
+
 /-! ## what should come out -/
 
-/-- events after `c0` through the first terminal one -/
-def expected (srv : Server) (c0 : Int) : List Ev := takeThrough (·.terminal) (srv.later c0)
+/-- events after `c0` through the first terminal one, those the `include_internal` flag lets through -/
+def expected (srv : Server) (c0 : Int) : List Ev := (takeThrough (·.terminal) (srv.later c0)).filter srv.shows
 
 /-- what the stream yields for an event, with the `last_sequence` it shows afterwards -/
 def emit (evs : List Ev) : List (Int × List Char) := evs.map fun e => ((e.seq : Int), e.payload)
